@@ -204,6 +204,7 @@ func (vc *VC) Generate() (err error) {
 			if err != nil {
 				return fmt.Errorf("%s: requires#%d: %v", vc.key, i+1, err)
 			}
+			vc.flushSkolems(ev, "true")
 			vc.assume(t)
 		}
 	}
@@ -366,6 +367,7 @@ func (vc *VC) loopHeader(li *loopInfo, R string, h *Heap) {
 			if err != nil {
 				vc.fail("%s invariant#%d: %v", name, i+1, err)
 			}
+			vc.flushSkolems(ev, R)
 			vc.assume(implies(R, t))
 		}
 		if li.spec.Decreases != nil {
@@ -458,6 +460,14 @@ func (vc *VC) havocLoop(li *loopInfo, h *Heap) {
 	var targets []target
 	coarseAll := false
 	mapsTouched := false
+	ghostHavoc := map[string]bool{}
+	defer func() {
+		for _, g := range sortedKeys(ghostHavoc) {
+			if gd, ok := vc.CS.Ghosts[g]; ok {
+				h.M["G_"+g] = vc.declare(vc.fresh("G_"+sanitize(g)), gd.SMTSort())
+			}
+		}
+	}()
 	allocs := false
 	invariantVal := func(v ssa.Value) bool {
 		switch x := v.(type) {
@@ -567,6 +577,30 @@ func (vc *VC) havocLoop(li *loopInfo, h *Heap) {
 				}
 				if vc.callIsPure(cc) {
 					allocs = true
+					continue
+				}
+				if isLockOp(calleeName(cc)) != "" {
+					// mutex state lives at the mutex address: typed by the struct that holds it
+					if a, ok := addrOf(cc.Args[0]); ok {
+						targets = append(targets, target{sort: SInt, obj: a.Obj, slot: a.Slot})
+						mt := cc.Args[0].Type().Underlying().(*types.Pointer).Elem()
+						if rs := vc.rwReaderSlot(mt); rs != 0 {
+							targets = append(targets, target{sort: SInt, obj: a.Obj, slot: plus(a.Slot, num(int64(rs)))})
+						}
+						continue
+					}
+					coarseAll = true
+					continue
+				}
+				// calls with a contract: their modifies clauses, by static type
+				if ts, ghosts, ok := vc.contractLoopTargets(cc); ok {
+					allocs = true
+					for _, t := range ts {
+						targets = append(targets, target{sort: t.sort, coarse: true, dyn: t.dyn, slotOff: t.slot})
+					}
+					for _, g := range ghosts {
+						ghostHavoc[g] = true
+					}
 					continue
 				}
 				coarseAll = true
@@ -848,4 +882,17 @@ func (vc *VC) heap0M(k string) string {
 		return n
 	}
 	return k + "_0"
+}
+
+// flushSkolems declares the skolem constants an assumed formula introduced (existentials in
+// assumption position) and assumes the well-typedness facts recorded for terms over them.
+func (vc *VC) flushSkolems(ev *Eval, guard string) {
+	for _, d := range ev.skolems {
+		vc.root().decls = append(vc.root().decls, d)
+	}
+	ev.skolems = nil
+	for _, hy := range ev.hyps {
+		vc.assume(implies(guard, hy))
+	}
+	ev.hyps = nil
 }
